@@ -84,6 +84,9 @@ def strip_gauss(mk, val, p, t):
 class Quad(Case):
     prop = "C16"
     rtol = 1e-7
+    # the float run of this harness sums interpolatory weights on an equidistant grid of degree up to 8 (alternating,
+    # ill-conditioned): it loses up to four digits, which says nothing about the encoding; the symbolic run is exact
+    conformance_tol = 1e-3
 
     @property
     def canary_scale(self):
